@@ -1,4 +1,4 @@
-From Rocfl Require Import Base.Bytes Model.VersionNum Model.Known Proofs.BytesFacts.
+From Rocfl Require Import Base.Bytes Model.VersionNum Proofs.BytesFacts.
 From Coq Require Import ZArith Lia ZifyBool ZifyN ZifyNat.
 Ltac Zify.zify_post_hook ::= Z.div_mod_to_equations.
 Open Scope N_scope.
@@ -19,82 +19,144 @@ Qed.
 Lemma pow10_pos e : 1 <= 10 ^ e.
 Proof. assert (H := N.pow_nonzero 10 e). lia. Qed.
 
-(** next = spec, in both build modes, outside the overflow class *)
-Lemma vnext_correct dbg v :
-  vwf v = true -> c14_overflow v = false -> vnext dbg v = vnext_spec v.
+Lemma pow10_ge_10pow10 e : 10 <= e -> 10 ^ 10 <= 10 ^ e.
+Proof. intros H. apply N.pow_le_mono_r; lia. Qed.
+
+(** the executable maximum is min(u32::MAX, 10^(w-1) - 1) for every padded width *)
+Lemma max_for_width_min w : 1 <= w -> max_for_width w = N.min U32MAX (10 ^ (w - 1) - 1).
 Proof.
-  unfold vwf, c14_overflow, vnext, vnext_spec, max_for_width.
-  destruct v as [n w]; cbn [vn_number vn_width]. intros Hwf Hk.
-  assert (Hn : n + 1 <= U32MAX) by (unfold U32MAX in *; lia).
-  destruct (w =? 0) eqn:Ew.
-  - cbn [res_bind]. unfold u32_op.
-    replace (n + 1 <=? U32MAX) with true by lia. cbn [res_bind].
-    destruct (U32MAX <? n + 1) eqn:E1, (n + 1 <=? U32MAX) eqn:E2; try reflexivity; lia.
-  - assert (Hp := pow10_le_u32 (w - 1) ltac:(lia)).
-    assert (Hp1 := pow10_pos (w - 1)).
-    unfold u32_pow10, u32_op.
-    replace (w - 1 <=? 9) with true by lia. cbn [res_bind].
-    unfold u32_pred. replace (10 ^ (w - 1) =? 0) with false by lia. cbn [res_bind].
-    replace (n + 1 <=? U32MAX) with true by lia. cbn [res_bind].
-    destruct (10 ^ (w - 1) - 1 <? n + 1) eqn:E1, (n + 1 <=? 10 ^ (w - 1) - 1) eqn:E2; try reflexivity; lia.
+  intros Hw. unfold max_for_width. replace (w =? 0) with false by lia.
+  destruct (w <=? 10) eqn:E.
+  - assert (Hp := pow10_le_u32 (w - 1) ltac:(lia)). lia.
+  - assert (Hp := pow10_ge_10pow10 (w - 1) ltac:(lia)).
+    change (10 ^ 10) with 10000000000 in Hp. unfold U32MAX. lia.
 Qed.
+
+Lemma max_for_width_le_u32 w : max_for_width w <= U32MAX.
+Proof.
+  unfold max_for_width. destruct (w =? 0) eqn:E0; [lia|]. destruct (w <=? 10) eqn:E; [|lia].
+  assert (Hp := pow10_le_u32 (w - 1) ltac:(lia)). lia.
+Qed.
+
+(** the maximum the code computes: never an overflow, in both build modes *)
+Lemma vnext_max dbg w :
+  (if w =? 0 then Ok U32MAX
+   else match u32_checked_pow10 (w - 1) with
+        | Some p => u32_pred dbg p
+        | None => Ok U32MAX
+        end) = Ok (max_for_width w).
+Proof.
+  unfold max_for_width, u32_checked_pow10, u32_pred. destruct (w =? 0) eqn:E0; [reflexivity|].
+  replace (w - 1 <=? 9) with (w <=? 10) by lia.
+  destruct (w <=? 10) eqn:E; [|reflexivity].
+  assert (Hp := pow10_pos (w - 1)). replace (10 ^ (w - 1) =? 0) with false by lia. reflexivity.
+Qed.
+
+(** next = spec, in both build modes, for EVERY width and every u32 number *)
+Lemma vnext_correct dbg v :
+  vnumok v = true -> vnext dbg v = vnext_spec v.
+Proof.
+  unfold vnumok, vnext, vnext_spec. destruct v as [n w]; cbn [vn_number vn_width]. intros Hok.
+  rewrite vnext_max. cbn [res_bind].
+  assert (Hm := max_for_width_le_u32 w).
+  destruct (max_for_width w <=? n) eqn:E.
+  - replace (n + 1 <=? max_for_width w) with false by lia. reflexivity.
+  - replace (n + 1 <=? max_for_width w) with true by lia.
+    unfold u32_op. replace (n + 1 <=? U32MAX) with true by lia. reflexivity.
+Qed.
+
+Lemma vnext_never_panics dbg v : vnumok v = true -> vnext dbg v <> Panic.
+Proof.
+  intros H. rewrite vnext_correct by assumption. unfold vnext_spec.
+  destruct (vn_number v + 1 <=? max_for_width (vn_width v)); discriminate.
+Qed.
+
+Lemma vnext_mode_independent v : vnumok v = true -> vnext true v = vnext false v.
+Proof. intros H. rewrite !vnext_correct by assumption. reflexivity. Qed.
 
 (** consequences the property names *)
 Lemma vnext_ok_plus_one dbg v v' :
-  vwf v = true -> c14_overflow v = false -> vnext dbg v = Ok v' ->
-  vn_number v' = vn_number v + 1 /\ vn_width v' = vn_width v /\ vfits v' = true /\ vwf v' = true.
+  vnumok v = true -> vnext dbg v = Ok v' ->
+  vn_number v' = vn_number v + 1 /\ vn_width v' = vn_width v /\ vfits v' = true /\ vnumok v' = true.
 Proof.
-  intros Hwf Hk H. rewrite vnext_correct in H by assumption.
+  intros Hok H. rewrite vnext_correct in H by assumption.
   unfold vnext_spec in H. destruct (vn_number v + 1 <=? max_for_width (vn_width v)) eqn:E; [|discriminate].
-  injection H as <-. cbn [vn_number vn_width]. unfold vfits, vwf in *. cbn [vn_number vn_width].
-  repeat split; try lia.
-  unfold max_for_width in E. destruct (vn_width v =? 0) eqn:Ew.
-  - unfold U32MAX in *. lia.
-  - assert (Hp := pow10_le_u32 (vn_width v - 1) ltac:(unfold c14_overflow in Hk; lia)).
-    unfold U32MAX in *. lia.
+  injection H as <-. cbn [vn_number vn_width]. unfold vfits, vnumok in *. cbn [vn_number vn_width].
+  assert (Hm := max_for_width_le_u32 (vn_width v)).
+  repeat split; lia.
 Qed.
 
 Lemma vnext_refuses_at_max dbg v :
-  vwf v = true -> c14_overflow v = false ->
+  vnumok v = true ->
   max_for_width (vn_width v) < vn_number v + 1 -> vnext dbg v = Err.
 Proof.
-  intros Hwf Hk H. rewrite vnext_correct by assumption. unfold vnext_spec.
+  intros Hok H. rewrite vnext_correct by assumption. unfold vnext_spec.
   destruct (vn_number v + 1 <=? max_for_width (vn_width v)) eqn:E; [lia|reflexivity].
 Qed.
 
-(** the overflow class is a real defect of the modelled code: witnesses *)
-Lemma vnext_width11_panics_debug : vnext true (mkV 1 11) = Panic.
+(** the inputs of the former overflow class are ordinary now *)
+Lemma vnext_width11 dbg : vnext dbg (mkV 1 11) = Ok (mkV 2 11).
+Proof. destruct dbg; vm_compute; reflexivity. Qed.
+Lemma vnext_width_u32max dbg : vnext dbg (mkV 4294967294 U32MAX) = Ok (mkV U32MAX U32MAX).
+Proof. destruct dbg; vm_compute; reflexivity. Qed.
+Lemma vnext_number_u32max dbg w : vnext dbg (mkV U32MAX w) = Err.
+Proof.
+  apply vnext_refuses_at_max; [reflexivity|]. cbn [vn_number vn_width].
+  assert (Hm := max_for_width_le_u32 w). lia.
+Qed.
+Lemma vnext_width0 dbg n : n < U32MAX -> vnext dbg (mkV n 0) = Ok (mkV (n + 1) 0).
+Proof.
+  intros H. unfold vnext, u32_op. cbn [vn_width vn_number]. change (0 =? 0) with true. cbn [res_bind].
+  replace (U32MAX <=? n) with false by lia. replace (n + 1 <=? U32MAX) with true by lia. reflexivity.
+Qed.
+
+(** Historical note: the arithmetic BEFORE fix 476b184 ([vnext_before_fix], a separate
+    definition that is not the model of the current code) overflowed on these inputs. *)
+Lemma vnext_before_fix_width11_panicked_debug : vnext_before_fix true (mkV 1 11) = Panic.
 Proof. vm_compute. reflexivity. Qed.
-
-Lemma vnext_width11_release_passes_max :
-  exists v', vnext false (mkV 999999999 11) = Ok v' /\ vn_number v' = 1000000000.
+Lemma vnext_before_fix_width11_release_wrong_max :
+  exists v', vnext_before_fix false (mkV 1410065407 11) = Err /\
+             vnext false (mkV 1410065407 11) = Ok v'.
 Proof. eexists. split; vm_compute; reflexivity. Qed.
-
-Lemma vnext_u32max_release_wraps : vnext false (mkV U32MAX 0) = Ok (mkV 0 0).
+Lemma vnext_before_fix_u32max_release_wrapped : vnext_before_fix false (mkV U32MAX 0) = Ok (mkV 0 0).
 Proof. vm_compute. reflexivity. Qed.
 
 (** previous *)
-Lemma vprev_correct dbg v : vwf v = true ->
+Lemma vprev_correct dbg v : vnumok v = true ->
   vprev dbg v = if vn_number v =? 1 then Err else Ok (mkV (vn_number v - 1) (vn_width v)).
 Proof.
-  unfold vwf, vprev, u32_pred. destruct v as [n w]; cbn [vn_number vn_width]. intros H.
+  unfold vnumok, vprev, u32_pred. destruct v as [n w]; cbn [vn_number vn_width]. intros H.
   replace (n =? 0) with false by lia. cbn [res_bind].
   destruct (n - 1 <? 1) eqn:E1, (n =? 1) eqn:E2; try reflexivity; lia.
 Qed.
 
-Lemma vprev_vnext dbg v v' : vwf v = true -> c14_overflow v = false ->
+Lemma vprev_vnext dbg v v' : vnumok v = true ->
   vnext dbg v = Ok v' -> vprev dbg v' = Ok v.
 Proof.
-  intros Hwf Hk H. destruct (vnext_ok_plus_one _ _ _ Hwf Hk H) as (Hn & Hw & _ & Hwf').
+  intros Hok H. destruct (vnext_ok_plus_one _ _ _ Hok H) as (Hn & Hw & _ & Hok').
   rewrite vprev_correct by assumption. rewrite Hn, Hw.
-  unfold vwf in Hwf. replace (vn_number v + 1 =? 1) with false by lia.
+  unfold vnumok in Hok. replace (vn_number v + 1 =? 1) with false by lia.
   destruct v as [n w]; cbn [vn_number vn_width]. f_equal. f_equal. lia.
+Qed.
+
+Lemma vwf_vnumok v : vwf v = true -> vnumok v = true.
+Proof. unfold vwf, vnumok. lia. Qed.
+
+(** a number that fits a padded width has fewer digits than the width *)
+Lemma vfits_lt_pow n w : 1 <= w -> n <= U32MAX -> n <= max_for_width w -> w <> 1 -> n < 10 ^ (w - 1).
+Proof.
+  intros Hw Hn Hfit H1. rewrite max_for_width_min in Hfit by assumption.
+  assert (Hp := pow10_pos (w - 1)).
+  destruct (w <=? 10) eqn:E.
+  - assert (Hp2 := pow10_le_u32 (w - 1) ltac:(lia)). lia.
+  - assert (Hp2 := pow10_ge_10pow10 (w - 1) ltac:(lia)).
+    change (10 ^ 10) with 10000000000 in Hp2. unfold U32MAX in *. lia.
 Qed.
 
 (** display / parse round trip *)
 Lemma vparse_vdisplay v : vwf v = true -> vfits v = true -> vparse (vdisplay v) = Ok v.
 Proof.
-  destruct v as [n w]. unfold vwf, vfits, max_for_width, vdisplay, vparse, pad_left0.
+  destruct v as [n w]. unfold vwf, vfits, vdisplay, vparse, pad_left0.
   cbn [vn_number vn_width]. intros Hwf Hfit.
   replace (Ascii.eqb "v" "v") with true by reflexivity. cbn [negb].
   assert (Hne := dec_digits_nonempty n).
@@ -107,10 +169,10 @@ Proof.
     replace (U32MAX <? n) with false by lia. replace (n <? 1) with false by lia.
     rewrite (dec_digits_head_nonzero n c r ltac:(lia) D). reflexivity.
   - (* padded: digits(n) has at most w-1 characters, so at least one 0 is prepended *)
-    assert (Hp1 := pow10_pos (w - 1)).
     assert (Hw2 : 2 <= w).
     { destruct (w =? 1) eqn:E1; [|lia]. assert (w = 1) by lia. subst w.
-      change (10 ^ (1 - 1)) with 1 in Hfit. lia. }
+      change (max_for_width 1) with 0 in Hfit. lia. }
+    assert (Hlt : n < 10 ^ (w - 1)) by (apply vfits_lt_pow; lia).
     assert (Hlen : (List.length (dec_digits n) <= N.to_nat (w - 1))%nat).
     { apply dec_digits_length; [lia|]. rewrite N2Nat.id. lia. }
     remember (N.to_nat w - List.length (dec_digits n))%nat as k eqn:Hk.
@@ -131,13 +193,12 @@ Qed.
 Lemma vdisplay_length_padded v : vwf v = true -> vfits v = true -> 0 < vn_width v ->
   blen (vdisplay v) = vn_width v + 1.
 Proof.
-  destruct v as [n w]. unfold vwf, vfits, max_for_width, vdisplay, pad_left0, blen.
+  destruct v as [n w]. unfold vwf, vfits, vdisplay, pad_left0, blen.
   cbn [vn_number vn_width]. intros Hwf Hfit Hw.
-  replace (w =? 0) with false in Hfit by lia.
-  assert (Hp1 := pow10_pos (w - 1)).
   assert (Hw2 : 2 <= w).
   { destruct (w =? 1) eqn:E1; [|lia]. assert (w = 1) by lia. subst w.
-    change (10 ^ (1 - 1)) with 1 in Hfit. lia. }
+    change (max_for_width 1) with 0 in Hfit. lia. }
+  assert (Hlt : n < 10 ^ (w - 1)) by (apply vfits_lt_pow; lia).
   assert (Hlen : (List.length (dec_digits n) <= N.to_nat (w - 1))%nat).
   { apply dec_digits_length; [lia|]. rewrite N2Nat.id. lia. }
   cbn [List.length]. rewrite app_length, replicate_length. lia.
